@@ -67,8 +67,8 @@ func c20SphCfgOf(reno bool, initPkts int, dq, dt int) func(bool) *c20SphCfg {
 func TestVerifC20Sph(t *testing.T) {
 	explore.Main("C20", []explore.Part{
 		c20SphPart("gate-reno", c20SphCfgOf(true, 4, 6, 8)),
-		c20SphPart("gate-reno3", c20SphCfgOf(true, 3, 6, 7)),
 		c20SphPart("gate-cubic", c20SphCfgOf(false, 4, 6, 7)),
 		c20SphPart("gate-production", c20SphCfgOf(true, 0, 6, 7)),
+		c20SphPart("gate-reno3", c20SphCfgOf(true, 3, 6, 7)),
 	}, func(msg string) { t.Fatal(msg) })
 }
